@@ -3,7 +3,6 @@
 From FB Require Export C04.TextTheory.
 From Coq Require Import Permutation Arith PeanoNat.
 
-Definition nonnil (s : str) : bool := negb (is_nil s).
 
 Lemma norm_action_nonnil a :
   act_all nonnil a = true ->
@@ -122,8 +121,9 @@ Proof.
   induction p as [|d p IH]; intros r HP H; cbn [map apply_pending] in *; [exact H|].
   inversion HP as [|? ? [Hnn Hch] HP1]; subst. rewrite Hi, (norm_action_nonnil _ Hnn), Hk.
   destruct (l_info L d) as [|b|a|a b]; try discriminate.
-  apply bind_ok in H. destruct H as (t & Et & H). apply bind_ok in H. destruct H as (r0 & Er & [= <-]).
-  rewrite (Hch _ _ Et). cbn [bind]. rewrite (IH r0 HP1 Er). reflexivity.
+  apply bind_ok in H. destruct H as (t0 & Et0 & H). apply bind_ok in H. destruct H as (t & Et & H).
+  apply bind_ok in H. destruct H as (r0 & Er & [= <-]).
+  rewrite Et0. cbn [bind]. rewrite (Hch _ _ Et). cbn [bind]. rewrite (IH r0 HP1 Er). reflexivity.
 Qed.
 
 Theorem apply_map_norm {K D T} (L : level K D T) (nf : D -> D)
@@ -156,15 +156,7 @@ Proof.
   destruct (Nat.lt_ge_cases tns (length l)) as [Hlt|Hge]; [exact Hlt|]. rewrite nth_overflow in Hn by exact Hge. discriminate.
 Qed.
 
-Definition nonempty_param (p : pdiff) : bool := act_all nonnil (pd_info p) && act_all nonnil (pd_doc p).
-Definition nonempty_field (f : fdiff) : bool := act_all nonnil (fd_info f) && act_all nonnil (fd_doc f).
-Definition nonempty_meth (m : mdiff) : bool :=
-  act_all nonnil (md_info m) && act_all nonnil (md_doc m) && forallb nonempty_param (md_params m).
-Definition nonempty_class (c : cdiff) : bool :=
-  act_all nonnil (cd_info c) && act_all nonnil (cd_doc c) && forallb nonempty_field (cd_fields c)
-  && forallb nonempty_meth (cd_methods c).
 (* no action of the diff mentions an empty string (names never are; comments may be: F4) *)
-Definition nonempty_diff (d : mdiffs) : bool := act_all nonnil (d_doc d) && forallb nonempty_class (d_classes d).
 
 Lemma chg_same_param n tns : chg_same (Lparam n tns).
 Proof.
